@@ -37,7 +37,8 @@ Inductive cond : Type :=
 | BEmptyItems (r : reg)          (* `style == {}` / `not d` *)
 | BHas (r : reg) (k : expr)      (* `k in d` *)
 | BNot (c : cond)
-| BAnd (a b : cond).
+| BAnd (a b : cond)
+| BTrue (e : expr).              (* python truthiness as Iso.is_true sees it on the snapshot *)
 
 Inductive cmd : Type :=
 | CSkip
@@ -54,6 +55,7 @@ Inductive cmd : Type :=
 | COp (x : reg) (f : Z) (a : expr)                (* x = primitive f (a) on scalars; may raise *)
 | CIf (b : cond) (t e : cmd)
 | CLoop (elems_only : bool) (k x y : reg) (body : cmd)   (* for k, x in list(y.items()) / for x in list(y) *)
+| COut (e : expr)                                 (* the rendering writes a token *)
 | CRaise (e : err).
 
 Record hstate := mkH {
@@ -61,7 +63,8 @@ Record hstate := mkH {
   h_env : reg -> val;
   h_lim : nat;          (* objects below h_lim existed when the last deepcopy returned (or at entry) *)
   h_log : fp;           (* (kind, slot) of every store that changed the identity of a slot of such an object *)
-  h_copies : Z
+  h_copies : Z;
+  h_out : list Z       (* what the rendering emits: 1 "<span ..>", 2 "</span>", 3 SAMI blank sync *)
 }.
 
 Definition setr (env : reg -> val) (x : reg) (v : val) : reg -> val := fun r => if Nat.eqb r x then v else env r.
@@ -84,11 +87,13 @@ Definition ret_code (r : result (option Z)) : result val :=
 
 (* 1 BaseWriter._relativize_and_fit_to_screen on a layout code (None = the very same object comes back)
    2 `if lang_layout and self.relativize: lang_layout.as_percentage_of(..)` (None = nothing to assign)
-   3 `layout_info and layout_info.padding` *)
+   3 `layout_info and layout_info.padding`   4 truthiness of a layout   5 int(t // 1000) *)
 Definition prim (o : wopts) (f : Z) (a : val) : result val :=
   if f =? 1 then ret_code (tr_code o (code_of a))
   else if f =? 2 then ret_code (tr_code_lang o (code_of a))
   else if f =? 3 then Ok (VInt (match a with VInt c => if flag fP c then 1 else 0 | _ => 0 end))
+  else if f =? 4 then Ok (VInt (match a with VInt c => if flag fT c then 1 else 0 | _ => 0 end))
+  else if f =? 5 then Ok (match a with VInt z => VInt (z / 1000) | x => x end)
   else Ok VNone.
 
 Fixpoint evb (o : wopts) (st : store) (env : reg -> val) (c : cond) : bool :=
@@ -100,6 +105,12 @@ Fixpoint evb (o : wopts) (st : store) (env : reg -> val) (c : cond) : bool :=
   | BHas r k => has_field st (env r) (ev o env k)
   | BNot c => negb (evb o st env c)
   | BAnd a b => evb o st env a && evb o st env b
+  | BTrue e => match ev o env e with
+               | VStr s => str_eqb s (lit "b:True")
+               | VInt z => negb (z =? 0)
+               | VNone => false
+               | VLoc l => match items_of st (VLoc l) with [] => false | _ => true end
+               end
   end.
 
 Definition slot_code (st : store) (ob k : val) : Z :=
@@ -120,42 +131,42 @@ Fixpoint exec (o : wopts) (c : cmd) (h : hstate) : hstate * option err :=
   match c with
   | CSkip => (h, None)
   | CSeq a b => match exec o a h with (h1, None) => exec o b h1 | r => r end
-  | CMov x e => (mkH st (setr env x (ev o env e)) (h_lim h) (h_log h) (h_copies h), None)
+  | CMov x e => (mkH st (setr env x (ev o env e)) (h_lim h) (h_log h) (h_copies h) (h_out h), None)
   | CCopy x y =>
       match deepcopy (dc_fuel st) st (env y) with
-      | Some (st1, v) => (mkH st1 (setr env x v) (length st1) (h_log h) (h_copies h + 1), None)
+      | Some (st1, v) => (mkH st1 (setr env x v) (length st1) (h_log h) (h_copies h + 1) (h_out h), None)
       | None => (h, Some EOutOfFuel)
       end
   | CShallow x y =>
       match env y with
       | VLoc _ =>
           let (st1, v) := new_obj st (kind_of st (env y)) (items_of st (env y)) in
-          (mkH st1 (setr env x v) (h_lim h) (h_log h) (h_copies h), None)
-      | v => (mkH st (setr env x v) (h_lim h) (h_log h) (h_copies h), None)
+          (mkH st1 (setr env x v) (h_lim h) (h_log h) (h_copies h) (h_out h), None)
+      | v => (mkH st (setr env x v) (h_lim h) (h_log h) (h_copies h) (h_out h), None)
       end
-  | CGet x y k => (mkH st (setr env x (field st (env y) (ev o env k))) (h_lim h) (h_log h) (h_copies h), None)
+  | CGet x y k => (mkH st (setr env x (field st (env y) (ev o env k))) (h_lim h) (h_log h) (h_copies h) (h_out h), None)
   | CKeys x y =>
       let (st1, v) := new_obj st KList (map (fun kv => (VNone, scal (fst kv))) (items_of st (env y))) in
-      (mkH st1 (setr env x v) (h_lim h) (h_log h) (h_copies h), None)
+      (mkH st1 (setr env x v) (h_lim h) (h_log h) (h_copies h) (h_out h), None)
   | CSet x k e =>
       let ob := env x in let kv := ev o env k in let nv := ev o env e in
       (mkH (set_field st ob kv nv) env (h_lim h)
            (log_store st (h_lim h) ob kv (negb (has_field st ob kv && val_eqb (field st ob kv) nv)) (h_log h))
-           (h_copies h), None)
+           (h_copies h) (h_out h), None)
   | CDel x k =>
       let ob := env x in let kv := ev o env k in
       (mkH (del_field st ob kv) env (h_lim h) (log_store st (h_lim h) ob kv (has_field st ob kv) (h_log h))
-           (h_copies h), None)
+           (h_copies h) (h_out h), None)
   | CAppend x e =>
       let ob := env x in
       (mkH (append_item st ob (ev o env e)) env (h_lim h) (log_store st (h_lim h) ob VNone true (h_log h))
-           (h_copies h), None)
+           (h_copies h) (h_out h), None)
   | CNew x kind its =>
       let (st1, v) := new_obj st kind (map (fun p => (ev o env (fst p), ev o env (snd p))) its) in
-      (mkH st1 (setr env x v) (h_lim h) (h_log h) (h_copies h), None)
+      (mkH st1 (setr env x v) (h_lim h) (h_log h) (h_copies h) (h_out h), None)
   | COp x f a =>
       match prim o f (ev o env a) with
-      | Ok v => (mkH st (setr env x (scal v)) (h_lim h) (h_log h) (h_copies h), None)
+      | Ok v => (mkH st (setr env x (scal v)) (h_lim h) (h_log h) (h_copies h) (h_out h), None)
       | Err e => (h, Some e)
       end
   | CIf b t e => if evb o st env b then exec o t h else exec o e h
@@ -165,11 +176,14 @@ Fixpoint exec (o : wopts) (c : cmd) (h : hstate) : hstate * option err :=
          | [] => (h, None)
          | kv :: r =>
              match exec o body (mkH (h_st h) (setr (setr (h_env h) k (fst kv)) x (snd kv))
-                                    (h_lim h) (h_log h) (h_copies h)) with
+                                    (h_lim h) (h_log h) (h_copies h) (h_out h)) with
              | (h1, None) => loop r h1
              | res => res
              end
          end) (sel_items eo (items_of st (env y))) h
+  | COut e =>
+      (mkH st env (h_lim h) (h_log h) (h_copies h)
+           (h_out h ++ [match ev o env e with VInt z => z | _ => -1 end]), None)
   | CRaise e => (h, Some e)
   end.
 
@@ -205,7 +219,54 @@ Fixpoint check (c : cmd) (a : aenv) : option aenv :=
       | Some a1 => if sub a0 a1 then Some (meet a0 a) else None
       | None => None
       end
+  | COut e => Some a
   | CRaise e => Some a
+  end.
+
+(* ---- "assigned before it is read": the registers a program may read before it has assigned them ----------------------- *)
+Definition tainted (u : list reg) (r : reg) : bool := existsb (Nat.eqb r) u.
+Definition clean (u : list reg) (x : reg) : list reg := filter (fun r => negb (Nat.eqb r x)) u.
+Definition euse (u : list reg) (e : expr) : bool := match e with EReg r => negb (tainted u r) | _ => true end.
+
+Fixpoint buse (u : list reg) (b : cond) : bool :=
+  match b with
+  | BIsNone e => euse u e
+  | BEq a b => euse u a && euse u b
+  | BEmptyElems r => negb (tainted u r)
+  | BEmptyItems r => negb (tainted u r)
+  | BHas r k => negb (tainted u r) && euse u k
+  | BNot c => buse u c
+  | BAnd a b => buse u a && buse u b
+  | BTrue e => euse u e
+  end.
+
+(* du c u = Some u' : started with the registers u holding UNKNOWN values, c never reads one of them before assigning it;
+   u' = the registers that may still hold an unknown value afterwards *)
+Fixpoint du (c : cmd) (u : list reg) : option (list reg) :=
+  match c with
+  | CSkip => Some u
+  | CSeq p q => match du p u with Some u1 => du q u1 | None => None end
+  | CMov x e => if euse u e then Some (clean u x) else None
+  | CCopy x y => if negb (tainted u y) then Some (clean u x) else None
+  | CShallow x y => if negb (tainted u y) then Some (clean u x) else None
+  | CKeys x y => if negb (tainted u y) then Some (clean u x) else None
+  | CGet x y k => if negb (tainted u y) && euse u k then Some (clean u x) else None
+  | CSet x k e => if negb (tainted u x) && euse u k && euse u e then Some u else None
+  | CDel x k => if negb (tainted u x) && euse u k then Some u else None
+  | CAppend x e => if negb (tainted u x) && euse u e then Some u else None
+  | CNew x kind its => if forallb (fun p => euse u (fst p) && euse u (snd p)) its then Some (clean u x) else None
+  | COp x f e => if euse u e then Some (clean u x) else None
+  | CIf b t e =>
+      if buse u b then match du t u, du e u with Some a, Some b => Some (a ++ b) | _, _ => None end else None
+  | CLoop eo k x y body =>
+      if negb (tainted u y) then
+        match du body (clean (clean u k) x) with
+        | Some u1 => if forallb (tainted u) u1 then Some u else None
+        | None => None
+        end
+      else None
+  | COut e => if euse u e then Some u else None
+  | CRaise e => Some u
   end.
 
 (* ---- the writers ------------------------------------------------------------------------------------------------ *)
@@ -233,6 +294,42 @@ Definition caps_tr (cl : reg) : cmd :=
                       CGet 12 11 (EInt 3);
                       CFor 13 12 (assign_tr 1 13 4 false true) ])%nat.
 
+(* ---- writer INSTANCE state: registers that survive a write() on the same writer object -------------------------------- *)
+Definition OPEN : reg := 100%nat.      (* self.open_span *)
+Definition LAST : reg := 101%nat.      (* SAMIWriter.last_time *)
+Definition GLOBAL : reg := 102%nat.    (* WebVTTWriter.global_layout *)
+Definition inst_regs : list reg := [OPEN; LAST; GLOBAL].
+
+Definition bor (a b : cond) : cond := BNot (BAnd (BNot a) (BNot b)).
+Definition bfalse : cond := BNot (BEq ENone ENone).
+
+(* `if self.open_span: close` *)
+Definition close_if_open : cmd := CIf (BEq (EReg OPEN) (EInt 1)) (COut (EInt 2)) CSkip.
+
+(* _recreate_span (DFXP mk = 4: the node's layout counts; Legacy mk = 8) / _recreate_line_style (SAMI mk = 5) on a STYLE
+   node `n`: the open_span state machine; registers 70-75 are scratch *)
+Definition node_tok (mk : Z) (n : reg) : cmd :=
+  block [ CGet 70 n (EInt 1);
+          CIf (BEq (EReg 70) (EInt 2))
+              (block [ CGet 71 n (EInt 2); CGet 72 n (EInt 3);
+                       CIf (BTrue (EReg 72))
+                           (if Z.eqb mk 5%Z then
+                              block [ close_if_open;
+                                      CIf (BEmptyItems 71) CSkip (block [COut (EInt 1); CMov OPEN (EInt 1)]) ]
+                            else
+                              block [ CGet 73 n (EInt 4); CGet 74 73 (EInt 1); COp 75 4 (EReg 74);
+                                      CIf (fold_right (fun k acc => bor (BHas 71 (EStr k)) acc)
+                                                      (if Z.eqb mk 4%Z then BEq (EReg 75) (EInt 1) else bfalse) DFXP_KEYS)
+                                          (block [close_if_open; COut (EInt 1); CMov OPEN (EInt 1)])
+                                          CSkip ])
+                           (block [close_if_open; CMov OPEN (EInt 0)]) ])
+              CSkip ]%nat.
+
+(* the body of the DFXP writers: for lang in langs: for caption ..: for node in caption.nodes: (span machine) *)
+Definition render_dfxp (mk : Z) : cmd :=
+  CFor 5 2 (block [ CGet 6 4 (EReg 5);
+                    CFor 11 6 (block [ CGet 12 11 (EInt 3); CFor 13 12 (node_tok mk 13) ]) ])%nat.
+
 (* dfxp/base.py DFXPWriter.write(caption_set = register `src`):
      langs = caption_set.get_languages(); if force in langs: langs = [force]      <- read from the ARGUMENT
      caption_set = deepcopy(caption_set)
@@ -250,7 +347,7 @@ Definition dfxp_body (src : reg) (copy : cmd) : cmd :=
                             assign_tr 2 6 1 true false;
                             caps_tr 6 ]) ]%nat.
 
-Definition prog_dfxp : cmd := dfxp_body 0 (CCopy 3 0)%nat.
+Definition prog_dfxp : cmd := block [dfxp_body 0 (CCopy 3 0); render_dfxp 4]%nat.
 
 (* sami.py SAMIWriter.write:
      caption_set = deepcopy(caption_set)
@@ -260,11 +357,24 @@ Definition prog_dfxp : cmd := dfxp_body 0 (CCopy 3 0)%nat.
         for caption ..: caption.layout_info = T(..); for node ..: node.layout_info = T(..); (render the caption)
      _recreate_stylesheet: for attr, value in get_styles(): if value != {}: _recreate_style_block(attr, value, set layout)
         -> `if layout_info and layout_info.padding: rules.update({margin-top.., margin-right.., ..})` *)
+(* _recreate_p_tag: time = int(caption.start // 1000); `if self.last_time is not None and time != self.last_time:` blank
+   sync; self.last_time = int(caption.end // 1000); then the nodes through _recreate_line_style *)
+Definition sami_caption : cmd :=
+  block [ assign_tr 1 11 5 false true;
+          CGet 12 11 (EInt 3);
+          CFor 13 12 (assign_tr 1 13 4 false true);
+          CGet 77 11 (EInt 1); COp 78 5 (EReg 77);
+          CIf (BAnd (BNot (BIsNone (EReg LAST))) (BNot (BEq (EReg 78) (EReg LAST)))) (COut (EInt 3)) CSkip;
+          CGet 79 11 (EInt 2); COp 80 5 (EReg 79); CMov LAST (EReg 80);
+          CFor 13 12 (node_tok 5 13) ]%nat.
+
 Definition sami_body (copy : cmd) : cmd :=
   block [ copy;
           assign_tr 1 3 3 false true;
           CGet 4 3 (EInt 1);
-          CForKV 5 6 4 (block [ assign_tr 1 6 1 true true; caps_tr 6 ]);
+          CForKV 5 6 4 (block [ CMov LAST ENone;                       (* self.last_time = None, per language *)
+                                assign_tr 1 6 1 true true;
+                                CFor 11 6 sami_caption ]);
           CGet 20 3 (EInt 3); CGet 21 20 (EInt 1); COp 22 3 (EReg 21);
           CIf (BEq (EReg 22) (EInt 1))
               (block [ CGet 7 3 (EInt 2);
@@ -328,7 +438,7 @@ Definition legacy_body (copy : cmd) (merge : cmd) : cmd :=
                                                CIf (BEmptyItems 14) CSkip
                                                    (CSet 14 (EStr (lit "s:region")) (EStr (lit "s:bottom"))) ]) ]) ]%nat.
 
-Definition prog_legacy : cmd := legacy_body (CCopy 3 0)%nat merge_body.
+Definition prog_legacy : cmd := block [legacy_body (CCopy 3 0)%nat merge_body; render_dfxp 8].
 
 (* dfxp/extras.py SinglePositioningDFXPWriter._create_single_positioning_caption_set + DFXPWriter.write on its result:
      caption_set = deepcopy(caption_set); caption_set = merge_concurrent_captions(caption_set)
@@ -351,7 +461,7 @@ Definition single_body (copy : cmd) (dfxp : cmd) : cmd :=
           CMov 41 (EReg 3);
           dfxp ]%nat.
 
-Definition prog_single : cmd := single_body (CCopy 3 0)%nat (dfxp_body 41 (CCopy 3 41))%nat.
+Definition prog_single : cmd := block [single_body (CCopy 3 0)%nat (dfxp_body 41 (CCopy 3 41))%nat; render_dfxp 4].
 
 (* webvtt.py / scc: `if caption_set.is_empty(): return output` (read on the ARGUMENT), then deepcopy; WebVTT keeps
    self.global_layout = caption_set.get_layout_info(lang) (register 60: a reference into the copy) *)
@@ -367,17 +477,28 @@ Definition prog_vtt : cmd :=
                            (CForKV 5 6 4 (CIf (BIsNone (EReg 25)) (block [CMov 24 (EReg 5); CMov 25 (EInt 1)]) CSkip))
                            (CMov 24 EOptLang);
                        CGet 6 4 (EReg 24);
-                       CIf (BEmptyElems 6) (CMov 60 ENone) (CGet 60 6 (EInt 1)) ]) ]%nat.
+                       CIf (BEmptyElems 6) (CMov 60 ENone) (CGet 60 6 (EInt 1));
+                       CMov GLOBAL (EReg 60);                   (* self.global_layout = .. *)
+                       (* _convert_caption: `layout = caption.layout_info or self.global_layout` *)
+                       CFor 11 6 (CGet 76 GLOBAL (EInt 1)) ]) ]%nat.
 
 Definition prog_scc : cmd :=
   block [ is_empty_to 50 0; CIf (BEq (EReg 50) (EInt 1)) CSkip (CCopy 3 0) ]%nat.
 
 Definition prog_copy_only : cmd := CCopy 3 0%nat.       (* SRT, MicroDVD: deepcopy, then only reads *)
 
-Definition prog_of (k : Z) : cmd :=
+Definition body_of (k : Z) : cmd :=
   if k =? W_DFXP then prog_dfxp else if k =? W_SAMI then prog_sami else if k =? W_LEGACY then prog_legacy
   else if k =? W_SINGLE then prog_single else if k =? W_VTT then prog_vtt else if k =? W_SCC then prog_scc
   else prog_copy_only.
+
+Definition is_span_kind (k : Z) : bool := (k =? W_DFXP) || (k =? W_SINGLE) || (k =? W_LEGACY) || (k =? W_SAMI).
+
+(* `self.open_span = False` at the top of write() (fix: DFXP/SAMI writers carried an open span flag ...) *)
+Definition reset_line (reset : bool) (k : Z) : cmd := if reset && is_span_kind k then CMov OPEN (EInt 0) else CSkip.
+
+Definition prog_with (reset : bool) (k : Z) : cmd := CSeq (reset_line reset k) (body_of k).
+Definition prog_of (k : Z) : cmd := prog_with true k.
 
 (* ---- variants that break the copy discipline (what a careless edit of the code would produce) --------------------- *)
 Definition alias_arg : cmd := CMov 3 (EReg 0)%nat.                    (* `caption_set = deepcopy(caption_set)` deleted *)
@@ -389,21 +510,43 @@ Definition prog_legacy_merge_first : cmd :=                               (* mer
   legacy_body (block [CMov 3 (EReg 0); merge_body; CCopy 3 0])%nat CSkip.
 Definition prog_single_nocopy : cmd := single_body alias_arg (dfxp_body 41 (CCopy 3 41))%nat.
 
+(* the span writers and WebVTT without the line that (re)initialises their instance state *)
+Definition prog_vtt_no_global : cmd :=
+  block [ is_empty_to 50 0;
+          CIf (BEq (EReg 50) (EInt 1)) CSkip
+              (block [ CCopy 3 0; CGet 4 3 (EInt 1); CMov 24 ENone; CMov 25 ENone;
+                       CIf (BIsNone EOptLang)
+                           (CForKV 5 6 4 (CIf (BIsNone (EReg 25)) (block [CMov 24 (EReg 5); CMov 25 (EInt 1)]) CSkip))
+                           (CMov 24 EOptLang);
+                       CGet 6 4 (EReg 24);
+                       CFor 11 6 (CGet 76 GLOBAL (EInt 1)) ]) ]%nat.
+
 (* ---- a write through a program -------------------------------------------------------------------------------------- *)
 Definition env0 (s : val) : reg -> val := fun r => match r with O => s | _ => VNone end.
 
-Definition hstate0 (st : store) (s : val) : hstate := mkH st (env0 s) (length st) [] 0.
+Definition hstate0 (st : store) (s : val) : hstate := mkH st (env0 s) (length st) [] 0 [].
 
 Definition run_prog (p : cmd) (o : wopts) (st : store) (s : val) : hstate * option err :=
   exec o p (hstate0 st s).
 
-(* the write of writer kind k: heap effect, footprint log and copy count from the program; what is rendered
-   (tokens, open_span, last_time) from Iso.write's plan on the same store *)
+Definition inst_env (i : winst) (s : val) : reg -> val :=
+  fun r => if Nat.eqb r 0 then s
+           else if Nat.eqb r OPEN then VInt (if wi_open i then 1 else 0)
+           else if Nat.eqb r LAST then vkey_of_tree (wi_last i)
+           else if Nat.eqb r GLOBAL then wi_ref i
+           else VNone.
+
+Definition tree_of_val (v : val) : tree := match v with VInt z => TInt z | VStr s => TStr s | _ => TNone end.
+
+Definition inst_of (env : reg -> val) : winst :=
+  mkWinst (val_eqb (env OPEN) (VInt 1)) (tree_of_val (env LAST)) (env GLOBAL).
+
+(* the write of writer kind k as a program, nothing taken from Iso.write: heap effect, footprint log, copy count, raising
+   exit, the tokens the rendering emits and the instance state left in the writer object *)
 Definition writeP (c : cfg) (k : Z) (o : wopts) (i : winst) (st : store) (s : val) : wres :=
-  let r := write c k o i st s in
-  let (h, e) := run_prog (prog_of k) o st s in
-  mkWres (h_st h) (wr_inst r)
-         (match e with Some x => Err x | None => wr_result r end)
+  let (h, e) := exec o (prog_with (fix15 c) k) (mkH st (inst_env i s) (length st) [] 0 []) in
+  mkWres (h_st h) (inst_of (h_env h))
+         (match e with Some x => Err x | None => Ok (mkOut (h_out h) TNone) end)
          (h_log h) (h_copies h).
 
 Definition stepP (c : cfg) (w : world) (op : Iso.op) : world * mobs :=
